@@ -166,6 +166,10 @@ func classify(r *refParts, got string) []deviation {
 	if r.Delim != "." && head == strings.ReplaceAll(sub, ".", r.Delim)+r.Delim {
 		return append(devs, deviation{"prefix-substitution", "prefix-dots-replaced-by-delimiter"})
 	}
+	if strings.Contains(head, "%!") {
+		// text produced by Go's fmt for a malformed verb ("%!(NOVERB)", "%!.(string=...")
+		return append(devs, deviation{"prefix-substitution", "fmt-bad-verb-text-in-topic"})
+	}
 	return append(devs, deviation{"prefix-substitution", "other"})
 }
 
